@@ -162,11 +162,16 @@ def FixedEnc.encode (f : FixedEnc) (cid : Nat) (text : Bytes) (width : Int) : Fi
     | none => ({ f with width := f.width.insert cid width }).setText code text
 
 /-- `(*fixed).GetCode`: the text argument is not looked at; a CID without a code in the CMap
-    (possible for CID 0, whose width is preset) is unmapped (fix 6288f11) -/
+    (possible for CID 0, whose width is preset) is unmapped (fix 6288f11), and so is a CID for
+    whose code no text has been recorded yet (D-C14-7: the preset width of CID 0 does not mean
+    that CID 0 has been encoded; the caller must go through `Encode`, which stores the text) -/
 def FixedEnc.getCode (f : FixedEnc) (cid : Nat) (_text : Bytes) : Option Nat :=
   match f.width.get cid with
   | none => none
-  | some _ => f.all cid
+  | some _ =>
+    match f.all cid with
+    | none => none
+    | some c => if (f.text.get c).isSome then some c else none
 
 def FixedEnc.codeStep (f : FixedEnc) (s : Bytes) : CodeOut × Nat :=
   let (c, k, valid) := decode f.csr s
